@@ -42,7 +42,7 @@ def cases(tier):
                 for N in ([2] if tier == "quick" else [2, 3]):
                     for lay in (("fyx", "tfyx") if Kx * Ky <= 2 or tier == "thorough" else ("fyx",)):
                         out.append(dict(kind="faces", Kx=Kx, Ky=Ky, N=N, orient=[list(map(list, o)) for o in orient],
-                                        periodic=periodic, lay=lay, n_admissible=len(oris), n_rotations=4 ** (Kx * Ky)))
+                                        periodic=periodic, lay=lay, n_admissible=len(oris), n_rotations=4 ** (Kx * Ky), listing=len(out) % 3))
     for N in (2, 3):
         for gm in ("periodic", "fill", "extend"):
             for lay in ("yx", "tyx", "xy"):
@@ -59,6 +59,11 @@ def case(W, cfg):
     Kx, Ky, N, periodic = cfg["Kx"], cfg["Ky"], cfg["N"], cfg["periodic"]
     dec = Decomp(Kx, Ky, N, orient, periodic)
     table = dec.links()
+    if table is not None and cfg.get("listing"):
+        # the same links, faces listed in another order (descending / rotated): a table is a mapping, not a sequence
+        ks = list(table)
+        ks = ks[::-1] if cfg["listing"] == 1 else ks[1:] + ks[:1]
+        table = {k: table[k] for k in ks}
     Wd, H, F = dec.W, dec.H, dec.F
     # global C-grid fluxes: U[y][x] through the low-x edge of cell (x,y) (x = 0..W), V[y][x] through the low-y edge
     Ua = W.data("U", (H, Wd + 1))
